@@ -1734,6 +1734,8 @@ func (s *Server) clearExpiredClients(dt int64) {
 
 		if disconnected+int64(expire) < dt {
 			s.hooks.OnClientExpired(client)
+			client.ClearInflights() // nothing of an expired session may survive it [MQTT-4.1.0-2]
+			s.UnsubscribeClient(client)
 			s.Clients.Delete(id) // [MQTT-4.1.0-2]
 		}
 	}
